@@ -795,9 +795,18 @@ Qed.
 
 (* agreement on the fields that J talks about *)
 Definition core (s : mgr) := (s_data s, s_added s, s_updated s, s_batch s, s_dedupe s).
+Lemma core_fields s s' : core s = core s' ->
+  s_data s = s_data s' /\ s_added s = s_added s' /\ s_updated s = s_updated s'
+  /\ s_batch s = s_batch s' /\ s_dedupe s = s_dedupe s'.
+Proof. unfold core. intros E. repeat split; congruence. Qed.
+Lemma core_eff s s' : core s = core s' -> forall i, eff s i = eff s' i.
+Proof.
+  intros E i. destruct (core_fields _ _ E) as (E1 & E2 & E3 & _).
+  unfold eff, fetch, pending_delta. rewrite E1, E2, E3. reflexivity.
+Qed.
 Lemma J_core pl s s' : core s = core s' -> J pl s -> J pl s'.
 Proof.
-  unfold core. intros E. inversion E as [[E1 E2 E3 E4 E5]]. clear E.
+  intros E. destruct (core_fields _ _ E) as (E1 & E2 & E3 & E4 & E5).
   unfold J, Jrest, Jpool, eff, fetch, pending_delta. rewrite E1, E2, E3, E4, E5. tauto.
 Qed.
 Lemma core_put s f : core (step s (OpPut f)) = core s.
@@ -819,8 +828,7 @@ Proof.
   set (s0 := step s (OpPut false)).
   assert (J0 : J pl s0) by (apply (J_core pl s s0); [symmetry; apply core_put|exact Js]).
   assert (Heq : forall i, eff s0 i = eff s i).
-  { intros i. pose proof (core_put s false) as C. fold s0 in C. unfold core in C.
-    inversion C as [[C1 C2 C3 C4 C5]]. unfold eff, fetch, pending_delta. rewrite C1, C2, C3. reflexivity. }
+  { intros i. apply core_eff. apply core_put. }
   destruct J0 as [((B & Dd) & (N1 & N2) & E) Jp].
   set (s1 := step s0 (OpPrune ids dd)). set (s2 := step s1 (OpUpdate true)).
   assert (C3 : core (step s2 (OpPut false)) = core s2) by apply core_put.
@@ -851,9 +859,140 @@ Proof.
       intros i _. reflexivity.
     - intros i p G. rewrite Heff2, (Hdata i p G). apply Jp, G. }
   split; [apply (J_core pl s2); [symmetry; exact C3|exact J2]|]. split.
-  - intros i. unfold core in C3. inversion C3 as [[C31 C32 C33 C34 C35]].
-    unfold eff, fetch, pending_delta. rewrite C31, C32, C33. apply Heff2.
-  - intros i p G. unfold core in C3. inversion C3 as [[C31 C32 C33 C34 C35]].
-    unfold eff at 1, fetch, pending_delta. rewrite C31, C32, C33.
-    fold (pending_delta s2 i). fold (fetch s2 i). fold (eff s2 i). rewrite Heff2, (Hdata i p G). apply Heq.
+  - intros i. rewrite (core_eff _ _ C3 i). destruct (core_fields _ _ C3) as (C31 & _). rewrite C31. apply Heff2.
+  - intros i p G. rewrite (core_eff _ _ C3 i), Heff2, (Hdata i p G). apply Heq.
+Qed.
+
+Definition target (o : op) : option id :=
+  match o with
+  | OpGhost i _ _ | OpHist i _ | OpState i _ | OpHeld i _ | OpFlows i _ | OpOutputs i _
+  | OpPrereqs i _ | OpFromProxy i _ => Some i
+  | _ => None
+  end.
+Lemma eff_other' s o j : is_plain_delta o = true -> (forall i, target o = Some i -> j <> i) ->
+  option_map strip (eff (step s o) j) = option_map strip (eff s j).
+Proof.
+  intros D H. apply eff_other; [exact D|]. intros i.
+  destruct o; try exact I; intros ->; apply H; reflexivity.
+Qed.
+
+Lemma other_ok_spec pl s o : other_ok pl s o = true ->
+  is_plain_delta o = true
+  /\ (forall i, target o = Some i -> shas i pl = false)
+  /\ (forall i f, o = OpFlows i f -> fetch s i <> None).
+Proof.
+  destruct o; cbn [other_ok is_plain_delta target]; try discriminate; intros H;
+    (split; [reflexivity|]); (split; [|try (intros ? ? E; discriminate E)]);
+    try (intros j E; inversion E; subst; apply negb_true_iff; exact H);
+    try (intros j E; discriminate E).
+  - intros j E; inversion E; subst. apply andb_true_iff in H. destruct H as [H _]. apply negb_true_iff; exact H.
+  - intros j g E; inversion E; subst. apply andb_true_iff in H. destruct H as [_ H].
+    destruct (fetch s j); [discriminate|discriminate].
+Qed.
+
+Lemma pstep_J pl s o pl' s' : J pl s -> pstep (pl, s) o = Some (pl', s') -> J pl' s'.
+Proof.
+  intros [Jr Jp] H. destruct o as [i p h0|i st h q r|i outs|i ps|i f|i|o|ids dd]; unfold pstep in H.
+  - (* PAdd *)
+    destruct (shas i pl) eqn:Sh; [discriminate|].
+    destruct (eff s i) as [n|] eqn:En.
+    + destruct (keys_within (n_outputs n) (p_outputs p) && (nonempty (p_prereqs p) || negb (nonempty (n_prereqs n)))) eqn:K;
+        [|discriminate]. apply andb_true_iff in K. destruct K as [K1 K2].
+      injection H as <- <-. change (J (sset i p pl) (step (step s (OpFromProxy i p)) (OpState i p))). split.
+      * apply Jrest_step; [reflexivity|intros ? ? E; discriminate E|].
+        apply Jrest_step; [reflexivity|intros ? ? E; discriminate E|exact Jr].
+      * apply (Jpool_sset pl s); [exact Jp| |apply (add_existing_reflects s i p n En K1 K2)].
+        intros j Nj. rewrite eff_other'; [|reflexivity|intros k E; inversion E; subst; exact Nj].
+        apply eff_other'; [reflexivity|intros k E; inversion E; subst; exact Nj].
+    + injection H as <- <-. change (J (sset i p pl) (step (step s (OpGhost i h0 (Some p))) (OpState i p))). split.
+      * apply Jrest_step; [reflexivity|intros ? ? E; discriminate E|].
+        apply Jrest_step; [reflexivity|intros ? ? E; discriminate E|exact Jr].
+      * apply (Jpool_sset pl s); [exact Jp| |].
+        -- intros j Nj. rewrite eff_other'; [|reflexivity|intros k E; inversion E; subst; exact Nj].
+           apply eff_other'; [reflexivity|intros k E; inversion E; subst; exact Nj].
+        -- apply add_new_reflects; [apply eff_none, En|]. destruct Jr as (_ & _ & E). apply E, eff_none, En.
+  - (* PState *)
+    destruct (sget i pl) as [p|] eqn:G; [|discriminate]. injection H as <- <-.
+    change (J (sset i (set_flags p st h q r) pl) (step s (OpState i (set_flags p st h q r)))).
+    destruct (Jp i p G) as (n & En & Rn). destruct (eff_some _ _ _ En) as (t & F & ->). split.
+    + apply Jrest_step; [reflexivity|intros ? ? E; discriminate E|exact Jr].
+    + apply (Jpool_sset pl s); [exact Jp| |apply (state_reflects s i t p st h q r F (reflects_rest_of _ _ Rn))].
+      intros j Nj. apply eff_other'; [reflexivity|intros k E; inversion E; subst; exact Nj].
+  - (* POutputs *)
+    destruct (sget i pl) as [p|] eqn:G; [|discriminate].
+    destruct (keys_within (p_outputs p) outs) eqn:K; [|discriminate]. injection H as <- <-.
+    change (J (sset i (set_outputs p outs) pl) (step s (OpOutputs i (set_outputs p outs)))).
+    destruct (Jp i p G) as (n & En & Rn). destruct (eff_some _ _ _ En) as (t & F & ->). split.
+    + apply Jrest_step; [reflexivity|intros ? ? E; discriminate E|exact Jr].
+    + apply (Jpool_sset pl s); [exact Jp| |apply (outputs_reflects s i t p outs F Rn K)].
+      intros j Nj. apply eff_other'; [reflexivity|intros k E; inversion E; subst; exact Nj].
+  - (* PPrereqs *)
+    destruct (sget i pl) as [p|] eqn:G; [|discriminate].
+    destruct (nonempty ps || negb (nonempty (p_prereqs p))) eqn:K; [|discriminate]. injection H as <- <-.
+    change (J (sset i (set_prereqs p ps) pl) (step s (OpPrereqs i (set_prereqs p ps)))).
+    destruct (Jp i p G) as (n & En & Rn). destruct (eff_some _ _ _ En) as (t & F & ->). split.
+    + apply Jrest_step; [reflexivity|intros ? ? E; discriminate E|exact Jr].
+    + apply (Jpool_sset pl s); [exact Jp| |apply (prereqs_reflects s i t p ps F Rn K)].
+      intros j Nj. apply eff_other'; [reflexivity|intros k E; inversion E; subst; exact Nj].
+  - (* PFlows *)
+    destruct (sget i pl) as [p|] eqn:G; [|discriminate]. injection H as <- <-.
+    change (J (sset i (set_flows p f) pl) (step s (OpFlows i f))).
+    destruct (Jp i p G) as (n & En & Rn). destruct (eff_some _ _ _ En) as (t & F & ->). split.
+    + apply Jrest_step; [reflexivity|intros ? ? E; inversion E; subst; congruence|exact Jr].
+    + apply (Jpool_sset pl s); [exact Jp| |apply (flows_reflects s i t p f F Rn)].
+      intros j Nj. apply eff_other'; [reflexivity|intros k E; inversion E; subst; exact Nj].
+  - (* PRemove *)
+    injection H as <- <-. split; [exact Jr|].
+    intros j p G. rewrite sget_sdel in G. destruct (N.eqb j i); [discriminate|]. apply Jp, G.
+  - (* POther *)
+    destruct (other_ok pl s o) eqn:K; [|discriminate]. injection H as <- <-.
+    change (J pl (step s o)).
+    destruct (other_ok_spec _ _ _ K) as (D & T & FL). split.
+    + apply Jrest_step; assumption.
+    + intros j p G. destruct (Jp j p G) as (n & En & Rn).
+      assert (E : option_map strip (eff (step s o) j) = option_map strip (eff s j)).
+      { apply eff_other'; [exact D|]. intros k Tk Ejk; subst. specialize (T _ Tk). unfold shas in T.
+        rewrite G in T. discriminate. }
+      rewrite En in E. cbn in E. destruct (eff (step s o) j) as [n'|]; cbn in E; [|discriminate].
+      exists n'. split; [reflexivity|]. apply (reflects_strip_eq n n'); [congruence|exact Rn].
+  - (* PUpdate *)
+    destruct (forallb (fun j => negb (shas j pl)) (ids ++ dd)) eqn:K; [|discriminate].
+    injection H as <- <-. apply (update_J pl s ids dd (conj Jr Jp) K).
+Qed.
+
+Lemma J_init : J [] (init_mgr []).
+Proof.
+  split.
+  - split; [split; reflexivity|]. split; [split; constructor|]. intros i _. reflexivity.
+  - intros i p G. discriminate G.
+Qed.
+
+Lemma prun_J prog : forall pl s pl' s', J pl s -> prun (pl, s) prog = Some (pl', s') -> J pl' s'.
+Proof.
+  induction prog as [|o r IH]; intros pl s pl' s' Js H; cbn [prun] in H.
+  - inversion H; subst. exact Js.
+  - destruct (pstep (pl, s) o) as [[pl1 s1]|] eqn:E; [|discriminate].
+    apply (IH pl1 s1 pl' s'); [apply (pstep_J pl s o); assumption|exact H].
+Qed.
+
+(* at any time: what the store will hold for a pooled task after the next batch is the pool's view *)
+Theorem pool_reflected_pending prog pl s :
+  prun ([], init_mgr []) prog = Some (pl, s) ->
+  forall i p, sget i pl = Some p -> exists n, eff s i = Some n /\ reflects n p.
+Proof. intros H. destruct (prun_J prog _ _ _ _ J_init H) as [_ Jp]. exact Jp. Qed.
+
+Lemma prun_app st a b : prun st (a ++ b) = match prun st a with Some st' => prun st' b | None => None end.
+Proof. revert st; induction a as [|o r IH]; intros st; cbn [prun app]; [reflexivity|]. destruct (pstep st o); [apply IH|reflexivity]. Qed.
+
+(* after update_data_structure: the store itself *)
+Theorem pool_reflected prog ids dd pl s :
+  prun ([], init_mgr []) (prog ++ [PUpdate ids dd]) = Some (pl, s) ->
+  forall i p, sget i pl = Some p -> exists n, sget i (s_data s) = Some n /\ reflects n p.
+Proof.
+  rewrite prun_app. destruct (prun ([], init_mgr []) prog) as [[pl0 s0]|] eqn:E; [|discriminate].
+  cbn [prun pstep]. destruct (forallb (fun j => negb (shas j pl0)) (ids ++ dd)) eqn:K; [|discriminate].
+  intros H; inversion H; subst; clear H. intros i p G.
+  pose proof (prun_J prog _ _ _ _ J_init E) as J0.
+  destruct (update_J pl s0 ids dd J0 K) as ([_ Jp] & Hd & _). cbv zeta in Hd.
+  destruct (Jp i p G) as (n & En & Rn). rewrite Hd in En. eauto.
 Qed.
